@@ -3,6 +3,7 @@ package main
 import (
 	"encoding/hex"
 	"fmt"
+	"math"
 	"os"
 	"sort"
 	"strings"
@@ -148,6 +149,14 @@ func setOccupancy(r *gen.Rng, m [][]mon.Cell, item int, F []int, style int) {
 			if style == 2 && k == 1 && b == 9 {
 				q = 1.0
 			}
+			if style == 3 {
+				// the float64 neighbours of the bin edges: largest value still in bin b / smallest in bin b
+				if k == 0 && b < 9 {
+					q = math.Nextafter(float64(b+1)/10, 0)
+				} else if k == 1 && b > 0 {
+					q = math.Nextafter(float64(b)/10, 1)
+				}
+			}
 			qs = append(qs, q)
 		}
 	}
@@ -267,7 +276,7 @@ func c07Scenarios(seed uint64, thorough bool, wfs []string) []Scn {
 		for _, ss := range []int{pss, fss} {
 			F := occupancyWithSumSq(w.S, ss)
 			for i := 0; i < w.Items; i++ {
-				for style := 0; style <= 2; style++ {
+				for style := 0; style <= 3; style++ {
 					m := baseMatrix(r, w.S, w.Items)
 					setOccupancy(r, m, i, F, style)
 					add(Scn{WF: name, Stream: Stream{Kind: "matrix", Seed: r.U64(), Matrix: m, Tail: tails[style%2]}, Note: fmt.Sprintf("item%d uniformity sumsq=%d (boundary %d/%d) style%d", i, ss, pss, fss, style)})
@@ -616,6 +625,33 @@ func runC08(c *ev.Ctx) {
 			groups = append(groups, g)
 		}
 	}
+	// sources that answer (0, nil) a number of times in a row before delivering (allowed by io.Reader,
+	// "discouraged"): both variants must wait them out and judge the same bytes
+	for si, stall := range []int{1, 3, 99, 100, 101, 150} {
+		for _, fname := range []string{"PeriodFast", "PowerOnFast"} {
+			if fname == "PowerOnFast" && si%2 == 1 && !c.Thorough() {
+				continue
+			}
+			w := workflows[fname]
+			r := gen.NewRng(gen.Mix(seed, 8088, uint64(stall), uint64(w.S)))
+			m := baseMatrix(r, w.S, w.Items)
+			for i := 0; i < w.Items; i++ {
+				setPassCount(r, m, i, oracle.Threshold(w.S))
+			}
+			st := Stream{Kind: "matrix", Seed: r.U64(), Matrix: m, Tail: "fail"}
+			plan := mon.ChunkPlan{Kind: "stall", Size: stall, Block: 3 + si}
+			g := &c08Group{wf: fname, stream: st}
+			id++
+			g.seqID = id
+			scns = append(scns, Scn{ID: id, WF: w.Seq, Stream: st, Stub: true, Chunk: plan, Note: fmt.Sprintf("sequential reference: stalling source (%d empty reads)", stall)})
+			for k := 0; k < 3; k++ {
+				id++
+				scns = append(scns, Scn{ID: id, WF: fname, Stream: st, Stub: true, Chunk: plan, Delay: mon.DelayPlan{Mode: delays[k%4], Seed: uint64(id)}, Procs: procs[k%4], Note: fmt.Sprintf("stalling source (%d empty reads) rep%d", stall, k)})
+				g.fast = append(g.fast, id)
+			}
+			groups = append(groups, g)
+		}
+	}
 	// real 10^6-bit PowerOnDetectFast (+race) in the thorough tier
 	if c.Thorough() {
 		st := Stream{Kind: "prng", Seed: gen.Mix(seed, 89)}
@@ -784,7 +820,7 @@ func runC09(c *ev.Ctx) {
 	kinds := []struct {
 		k      string
 		sticky bool
-	}{{"eof", true}, {"ueof", true}, {"custom", true}, {"partial", true}, {"eof", false}, {"ueof", false}, {"custom", false}}
+	}{{"eof", true}, {"ueof", true}, {"custom", true}, {"partial", true}, {"eof", false}, {"ueof", false}, {"custom", false}, {"partial", false}, {"temporary", false}, {"eagain", false}, {"temporary", true}}
 	nSeeded := 30
 	if c.Thorough() {
 		nSeeded = 400
@@ -818,7 +854,12 @@ func runC09(c *ev.Ctx) {
 		st := Stream{Kind: "matrix", Seed: r.U64(), Matrix: m, Tail: "random"}
 		for oi, o := range ol {
 			for ki, k := range kinds {
-				if !c.Thorough() && oi%2 == 1 && ki >= 4 {
+				if !c.Thorough() && oi%2 == 1 && ki >= 4 && ki < 7 {
+					continue
+				}
+				if k.k == "partial" && !k.sticky && o%B == 0 {
+					// a transient error that arrives together with the LAST byte a sample needed may
+					// legitimately go unseen (io.ReadFull drops it by contract): only injected mid-sample
 					continue
 				}
 				id++
@@ -828,8 +869,13 @@ func runC09(c *ev.Ctx) {
 					sc.Delay = mon.DelayPlan{Mode: []string{"none", "gosched", "mixed"}[id%3], Seed: uint64(id)}
 					sc.Procs = []int{0, 1, 2, 4}[(id/3)%4]
 				}
-				if (oi+ki)%11 == 0 {
+				switch (oi + 2*ki) % 7 {
+				case 0:
 					sc.Chunk = mon.ChunkPlan{Kind: "fixed", Size: 997}
+				case 3:
+					sc.Chunk = mon.ChunkPlan{Kind: "random", Seed: uint64(id)}
+				case 5:
+					sc.Chunk = mon.ChunkPlan{Kind: "fixed", Size: w.B/2 + 1}
 				}
 				raceOf[id] = w.Fast && (oi*7+ki)%9 == 0
 				scns = append(scns, sc)
@@ -841,6 +887,9 @@ func runC09(c *ev.Ctx) {
 				id++
 				o := int64(r.Intn(int(need)))
 				kk := kinds[k%len(kinds)]
+				if o%B == 0 {
+					o++
+				}
 				scns = append(scns, Scn{ID: id, WF: name, Stream: Stream{Kind: "prng", Seed: r.U64()}, Chunk: mon.ChunkPlan{Kind: "whole"},
 					Fault: &mon.FaultPlan{Offset: o, Kind: kk.k, Sticky: kk.sticky}, Note: fmt.Sprintf("real runners fault@%d %s sticky=%v", o, kk.k, kk.sticky)})
 			}
@@ -939,6 +988,10 @@ func runC09(c *ev.Ctx) {
 		}
 		if len(r.Leaked) > 0 {
 			c.Violation(key+":leak", "goroutines of the module left blocked after return:\n"+clip(strings.Join(r.Leaked, "\n"), 1500), "wf", sc)
+		}
+		for _, p := range r.Problems {
+			c.Violation(key+":history", p, "wf", sc)
+			break
 		}
 		if r.CensusUnd {
 			c.Count("census_undecided", 1)
